@@ -11,6 +11,7 @@ namespace vf {
         S_STS_BEFORE_SCHEDULE = 12,// set_thread_state before schedule_thread
         S_SET_ACTIVE_STATE = 13,   // set_active_state (helper task) entry
         S_STS_ACTIVE_HELPER = 14,  // set_thread_state: target active, about to create the helper task
+        S_STS_ENTRY = 15,          // set_thread_state entry (hint argument already evaluated by the caller, state not yet read)
         S_CV_WAIT = 20,            // detail::condition_variable::wait between unlock and suspend
         S_CV_NOTIFY_ONE = 21,      // notify_one before resume
         S_CV_NOTIFY_ALL = 22,      // notify_all before each resume
